@@ -1,6 +1,7 @@
 /* C11 correspondence harness: esl_histogram.c and the maximum-likelihood fits
  * (esl_exponential.c esl_gumbel.c esl_lognormal.c esl_gamma.c esl_weibull.c esl_stretchexp.c esl_gev.c). */
 #include "esl_minimizer.c"      /* FIRST: gives access to the static bracket(), brent(), numeric_derivative() */
+#include "esl_gev.c"            /* access to the static gev_func(), gev_gradient() (op "gevobj") */
 #include "hcommon.h"
 #include <math.h>
 #include <unistd.h>
@@ -313,6 +314,13 @@ static void h_op(void)
   }
   if (!strcmp(op, "fit"))    { alarm(H_FIT_TIMEOUT); do_fit(); alarm(0); return; }   /* a fit that never returns dies with SIGALRM -> "fault signal:14" */
   if (!strcmp(op, "sample")) { do_sample(); return; }
+  if (!strcmp(op, "gevobj")) {       /* gev_func() and gev_gradient() at a given point p = (mu, log lambda, alpha) on the current data set */
+    struct gev_data data; double *p = NULL, dp[3] = { 0., 0., 0. }, f; int np = parse_bits_list(h_arg("p"), &p);
+    if (np != 3) { free(p); h_out("bad-op"); return; }
+    data.x = DX; data.n = DN; data.is_censored = (int) h_argi("cens", 0); data.phi = h_argbits("a"); data.z = (int) h_argi("z", 0);
+    f = gev_func(p, 3, &data); gev_gradient(p, 3, &data, dp);
+    h_out("ok f=%s g0=%s g1=%s g2=%s", h_dbits(f), h_dbits(dp[0]), h_dbits(dp[1]), h_dbits(dp[2])); free(p); return;
+  }
   if (op[0] == 'h' && !H) { h_out("nohist"); return; }
   if (!strcmp(op, "hadd")) {
     double *x; int n = parse_bits_list(h_arg("xs"), &x), i; char *buf = malloc((size_t) n + 8);
